@@ -23,6 +23,7 @@ for d, _dirs, files in os.walk(os.path.join(repo, PKG)):
         if any(x in '/' + rel for x in EXCLUDE_PARTS):
             continue
         trees[rel] = ast.parse(open(p, encoding='utf-8').read())
+        normalize.t0(trees[rel])      # the snapshot is of the canonical form
 snap = normalize.snapshot(trees)
 with open(normalize.REF_PATH, 'w') as fh:
     json.dump(snap, fh, indent=0, sort_keys=True)
